@@ -2,6 +2,6 @@ SPECIFICATION Spec
 CONSTANTS
   FLIP_ATOMIC = FALSE
   EMIT = FALSE
-INVARIANTS AllOrNothing Committed FoldAgrees
+INVARIANTS AllOrNothing Committed StaleAfterTouch FoldAgrees
 PROPERTY Terminates
 CHECK_DEADLOCK FALSE
